@@ -12,7 +12,7 @@ PROP = dict(
         "positions_consistent",
         "err_range_in_source", "err_range_on_char_boundaries",
         "err_before_ws_range_on_char_boundaries", "include_validate_terminates", "include_assembly_terminates",
-        "include_cycle_is_reported", "include_depth_limit_refuted",
+        "include_cycle_is_reported", "include_no_unreported_cycle_on_any_route", "include_depth_limit_refuted",
     ],
     prelude="Require Import FV.C13.Model FV.C13.Tie.\nFrom Coq Require Import List NArith Bool Arith.\nOpen Scope nat_scope.",
     harness_args=lambda tier, seed: ["--seed", str(seed), "--n", str(N[tier]), "--parse", str(NPARSE[tier])],
@@ -27,7 +27,7 @@ PROP = dict(
          "(nested nodes, remaps, splits incl. invalid ones, do_bump<N>, err*, unbalanced finishes; one third are "
          "contextual rules that the real reparse functions rewrite) vs the model run; the reparse calls are "
          "reconstructed from the rewritten node. stream I: include graphs (self include, cycles, chains of 44-56 "
-         "files, DAGs with diamonds/duplicates, missing files, two paths to a shared chain, random digraphs) vs the "
+         "files, DAGs with diamonds/duplicates, missing files, two paths to a shared chain, chains of 46-50 files whose last file is also included from near the root (both visiting orders) with nothing / a self include / a cycle / further includes / an include back into the chain below it, random digraphs; run in a child process so that a stack overflow or abort of tree assembly is observed and reported with the graph) vs the "
          "model of IncludeGraph::validate / generate_recurse. A case is non-trivial when it has more than one lexeme "
          "/ more than two calls / more than one file; distinct = distinct (input, calls).",
     trusted_base=["Coq 8.16.1 kernel (coqc, vm_compute for case evaluation and the refutation witnesses)",
